@@ -74,6 +74,20 @@ fn main() {
             let bytes = wat::parse_file(&args[2]).expect("wat");
             println!("{}", out::hex(&bytes));
         }
+        "rtdump" => {
+            // debugging aid: `rtdump <dwarf 0|1> <hexfile> <outprefix>`: emit, re-parse, emit; write both
+            let wasm = out::unhex(std::fs::read_to_string(&args[3]).unwrap().trim());
+            let mk = || {
+                let mut c = walrus::ModuleConfig::new();
+                c.generate_dwarf(args[2] == "1");
+                c
+            };
+            let b1 = mk().parse(&wasm).unwrap().emit_wasm();
+            let b2 = mk().parse(&b1).unwrap().emit_wasm();
+            std::fs::write(format!("{}.1.wasm", args[4]), &b1).unwrap();
+            std::fs::write(format!("{}.2.wasm", args[4]), &b2).unwrap();
+            println!("{} {} equal={}", b1.len(), b2.len(), b1 == b2);
+        }
         "opsxtest" => {
             let u = opsx::universe(1);
             println!("supported plain ops {} typed {} unsupported {} cases {} untypable {:?}", u.supported_plain, u.typed, u.unsupported, u.cases.len(), u.untypable);
